@@ -231,6 +231,18 @@ func TDRandom(rng *rand.Rand, n int, startID int) []*TDCase {
 	for k, v := range []string{"1", "2"} {
 		out = append(out, &TDCase{ID: id + 10 + k, Name: "cased", In: map[string]string{"in": "d/f.txt"}, Joined: map[string][]string{}, Params: map[string]string{"n": v, "N": "7"}, Tags: map[string]string{"in.k": "x", "in.K": "y"}})
 	}
+	// identities larger than 4 kB / 64 kB that differ only in a late piece (a long parameter value first, the
+	// differing parameter, tag value or last path after it)
+	for k, size := range []int{3000, 5000, 70000} {
+		long := strings.Repeat("g", size)
+		for v := 0; v < 3; v++ {
+			id += 10
+			out = append(out,
+				&TDCase{ID: id, Name: "big", In: map[string]string{"in": "d/f.txt"}, Joined: map[string][]string{}, Params: map[string]string{"genes": long, "padding": fmt.Sprint(v)}, Tags: map[string]string{}},
+				&TDCase{ID: id + 1, Name: "big", In: map[string]string{"in": "d/f.txt"}, Joined: map[string][]string{}, Params: map[string]string{"genes": long}, Tags: map[string]string{"in.zz": fmt.Sprint(v)}},
+				&TDCase{ID: id + 2, Name: "big", In: map[string]string{"in": long[:200] + "/" + long[:200] + "/f.txt", "zlast": fmt.Sprintf("d/%d.txt", v+k)}, Joined: map[string][]string{}, Params: map[string]string{"a": long}, Tags: map[string]string{}})
+		}
+	}
 	// every name length around the boundary once
 	for l := 1; l <= 420; l++ {
 		out = append(out, &TDCase{ID: startID + n + l, Name: strings.Repeat("q", l), In: map[string]string{"in": "d/f.txt"}, Joined: map[string][]string{}, Params: map[string]string{}, Tags: map[string]string{}})
